@@ -42,8 +42,10 @@ GenOK(o) ==
      /\ v = "yes"  => Accepted(o)
      /\ v = "no"   => /\ Rejected(o)
                       /\ \E i \in DOMAIN e : e[i].verdict = "no" /\ \E r \in Range(e[i].reasons) : ReasonShown(o, e[i], r)
-     /\ v = "free" => (Accepted(o) \/ Rejected(o))
+     /\ v = "free" => (Accepted(o) \/ Rejected(o) \/ (Cases[o.ci].fam = "F" /\ ~o.failed))   \* F: exit 0 without injectors is an outcome
      /\ o.wrote => o.built # "fail"
+     \* C20: a refusal carries a position inside the user's sources (family F; golden-pinned exceptions are known findings)
+     /\ (Cases[o.ci].fam = "F" /\ o.failed) => \E d \in Range(o.diags) : d.pos
 
 \* check: same verdict as gen would give, same classes (no file is ever written)
 CheckOK(o) ==
